@@ -5,7 +5,7 @@
    state.  These hold for every configuration, every input and every schema-library oracle.
    Blanks inserted where they are inert only SHIFT the lexemes (proofs/ShiftProofs.v, end of this file): for
    data = a ++ b and data' = a ++ w ++ b, w made of space/tab/CR/LF, if the scan of data stands after a in one of the
-   11 [shift_states] with nothing pending and no lexeme open, then scan data' returns the same verdict (an error
+   15 [shift_states] with nothing pending and no lexeme open, then scan data' returns the same verdict (an error
    position moved by |w|), the same lexemes before the insertion point and the later ones moved by |w|
    (blanks_only_shift_lexemes; leading_blanks_only_shift for a = [], without any premise about a run).
 
@@ -20,16 +20,25 @@
    read kinds, parameters, annotations and parentheses, never positions - and EXCEPT for the scan loop itself, now
    closed by blanks_only_shift_lexemes.  Still open for (i): lexemes -> directives, and the stages after expansion
    (catalog building reads bodies through their coordinates).
-   What blanks_only_shift_lexemes leaves open at the scanner level: (a) the run of the scanner on data' UP TO the
-   insertion point is a premise (it is the same run as on data unless isDirective() or the schema library looked
-   beyond the insertion point; given by computation in blanks_only_shift_lexemes_run); (b) of the 18 blank-inert
-   states, 7 are not covered: the three description-text states and the multi-line annotation (there the claim is
-   FALSE: trailing blanks belong to the text lexeme, and a blank between '*' and '/' keeps the annotation open), and
-   the four body states stateBodyBody/RequestBody/ResponseBody/TypeBody (true, but the look-back typing bounds what
-   they pop from the state stack by 1, not 0); (c) one side condition on the configuration at the insertion point
-   is a premise although it holds in every run: the remembered parameters of the last directive end before the
-   insertion point (the other one, the look-back of the states on the state stack, is proved for every run:
-   ShiftProofs.reach_stk). *)
+   Whole comment lines "# text" + LF inserted in a shift state that admits a comment likewise only shift the later
+   lexemes (comment_line_only_shifts_lexemes).  For an insertion point at the START OF A LINE (a empty or ending in
+   LF) the run of the longer input up to the insertion point is no longer a premise: it is derived
+   (longer_input_runs_alike) under ONE explicit hypothesis about the schema library - every call made before the
+   insertion point (prefix_calls: the calls, computed) gave the same answer with the bytes inserted and found a body
+   that ends before the insertion point (local_call); isDirective() needs no hypothesis, it reads the current line
+   only.  blanks_at_line_start_only_shift, comment_line_at_line_start_only_shifts: premises = the computed run of
+   the SHORTER input up to |a|, that hypothesis, "no lexeme open" and the state.  The same equalities read from the
+   longer input to the shorter one are the REMOVAL corollaries (*_removed_*).
+   What is left open at the scanner level: (a) insertion points inside a line still need the run of the longer
+   input as a premise (blanks_only_shift_lexemes, comment_line_only_shifts_lexemes); (b) of the 18 blank-inert
+   states, 3 are not covered: stateDescriptionTextBegin, stateDescriptionTextNewline and the multi-line annotation -
+   there the claim is FALSE: trailing blanks belong to the text lexeme, and a blank between '*' and '/' keeps the
+   annotation open (the four body states stateBodyBody/RequestBody/ResponseBody/TypeBody ARE covered: the look-back
+   typing knows that the state they pop from the state stack needs no look-back); (c) in the
+   theorems that take the two runs as premises, "the remembered parameters of the last directive end before the
+   insertion point" is a premise (it is derived in the line-start theorems); (d) the comment text must be non-empty
+   and free of '#', NUL, CR, LF; block comments are not covered; (e) the removal corollaries state their premises
+   on the shorter input (the result of the removal). *)
 From Coq Require Import List NArith Bool String.
 From JV.lib Require Import Bytes.
 From JV.gen Require Import ScannerTable.
@@ -178,9 +187,12 @@ Print Assumptions two_layouts_one_shape.
 
 (* ---- inserted blanks only shift the lexemes (proofs/ShiftProofs.v) ----
    dist s = how many bytes state s may reach back (AFound back, ARewind n, CPrevIs), inferred from the table and checked
-   against it by evaluation; shift_states = the blank-inert states with dist 0.  On the table as it is now:
-   stateCommentBlock, stateDescriptionTextBracketsInnerNewLine, stateEnumBody, stateExpectKeyword, stateHeaderBody,
-   stateParamsBody, statePathBody, stateQueryBodyOrKeyword, stateRegexBody, stateResultBody, stateRoot. *)
+   against it by evaluation (with it: a bound of 1 on the look-back of every state ever pushed on the state stack, and
+   the "tight" states - the four body states - under which a state without look-back lies);
+   shift_states = the blank-inert states with dist 0.  On the table as it is now: stateBodyBody, stateCommentBlock,
+   stateDescriptionTextBracketsInnerNewLine, stateEnumBody, stateExpectKeyword, stateHeaderBody, stateParamsBody,
+   statePathBody, stateQueryBodyOrKeyword, stateRegexBody, stateRequestBody, stateResponseBody, stateResultBody,
+   stateRoot, stateTypeBody. *)
 Theorem look_back_typing_fits_the_table : ShiftProofs.dist_ok = true.
 Proof. exact ShiftProofs.dist_table_ok. Qed.
 Print Assumptions look_back_typing_fits_the_table.
@@ -281,3 +293,145 @@ Theorem blank_line_between_directives_shifts :
                             (ShiftProofs.ShiftExample.a ++ ShiftProofs.ShiftExample.w ++ ShiftProofs.ShiftExample.b)%list) = SEof.
 Proof. exact ShiftProofs.ShiftExample.blank_line_between_directives. Qed.
 Print Assumptions blank_line_between_directives_shifts.
+
+(* ---- whole comment lines; insertion at the start of a line; removal (proofs/ShiftProofs.v, sections 7-9) ---- *)
+
+(* a comment line "#" text LF (text non-empty, without '#', NUL, CR, LF) inserted where the scanner is in a shift state
+   that admits a comment, with nothing pending and no lexeme open: the comment bytes are read in the comment states
+   without any event, the line end is handed to the restored state, where it is inert; the rest is the translation
+   lemma.  Same shape as blanks_only_shift_lexemes. *)
+Theorem comment_line_only_shifts_lexemes : forall jsc enum (a text b : bytes) g acc,
+  TM_Events.len_sane jsc -> TM_Events.len_sane enum -> Forall TM_Loop.isb (a ++ b)%list -> Forall TM_Loop.isb text ->
+  forallb plain_comment_byte text = true -> text <> [] ->
+  let w := (35 :: text ++ [10])%list in
+  ShiftProofs.reach jsc enum (a ++ b)%list (N.of_nat (List.length (a ++ b)%list)) g acc ->
+  ShiftProofs.reach jsc enum (a ++ w ++ b)%list (N.of_nat (List.length (a ++ w ++ b)%list))
+                    (set_zip g (pos g) (pre g) (w ++ b)%list) acc ->
+  pos g = N.of_nat (List.length a) -> pre g = rev a -> rest g = b -> finds g = [] -> estk g = [] ->
+  In (reg g) ShiftProofs.shift_states -> In (reg g) comment_entry_states ->
+  Forall (fun l => le l < N.of_nat (List.length a)) (lastp g) ->
+  exists ls,
+    fst (fst (scan jsc enum (a ++ b)%list)) = (rev acc ++ ls)%list /\
+    fst (fst (scan jsc enum (a ++ w ++ b)%list)) = (rev acc ++ map (ShiftProofs.shL (N.of_nat (List.length w))) ls)%list /\
+    snd (fst (scan jsc enum (a ++ w ++ b)%list)) =
+    ShiftProofs.she (N.of_nat (List.length w)) (snd (fst (scan jsc enum (a ++ b)%list))).
+Proof. exact ShiftProofs.comment_line_shift_lemma. Qed.
+Print Assumptions comment_line_only_shifts_lexemes.
+
+(* premise (a) of blanks_only_shift_lexemes, for an insertion point at the start of a line.  line_start a: a = [] or a
+   ends in LF.  prefix_calls = the calls of the schema library made by the run up to |a| (which reader, the text handed
+   over), computed.  local_call w b (kind, s): with r = the part of s before the insertion point, the reader answers
+   on r ++ w ++ b what it answers on s = r ++ b, and if that is a length m, the body ends before the insertion point
+   (m + |b| <= |s|).  ANY inserted bytes w.  Then the longer input is scanned alike up to |a|: the same configuration
+   but for the text ahead, the same lexemes; and that configuration has read exactly a, has nothing pending, and its
+   remembered parameters end before the insertion point. *)
+Theorem longer_input_runs_alike : forall jsc enum (a w b : bytes),
+  ShiftProofs.line_start a ->
+  forall g acc,
+  ShiftProofs.prefix_run jsc enum (a ++ b)%list (N.of_nat (List.length a)) = Some (g, acc) ->
+  Forall (ShiftProofs.local_call jsc enum w b) (ShiftProofs.prefix_calls jsc enum (a ++ b)%list (N.of_nat (List.length a))) ->
+  ShiftProofs.prefix_run jsc enum (a ++ w ++ b)%list (N.of_nat (List.length a)) =
+    Some (set_zip g (pos g) (pre g) (w ++ b)%list, acc) /\
+  pos g = N.of_nat (List.length a) /\ pre g = rev a /\ rest g = b /\ finds g = [] /\
+  Forall (fun l => le l < N.of_nat (List.length a)) (lastp g).
+Proof. exact ShiftProofs.prefix_run_ins_lemma. Qed.
+Print Assumptions longer_input_runs_alike.
+
+(* blank lines / indentation inserted at the start of a line: premises on the SHORTER input only *)
+Theorem blanks_at_line_start_only_shift : forall jsc enum (a w b : bytes) g acc,
+  TM_Events.len_sane jsc -> TM_Events.len_sane enum -> Forall TM_Loop.isb (a ++ b)%list ->
+  Forall (fun c => In c blank_bytes) w ->
+  ShiftProofs.line_start a ->
+  ShiftProofs.prefix_run jsc enum (a ++ b)%list (N.of_nat (List.length a)) = Some (g, acc) ->
+  Forall (ShiftProofs.local_call jsc enum w b) (ShiftProofs.prefix_calls jsc enum (a ++ b)%list (N.of_nat (List.length a))) ->
+  estk g = [] -> In (reg g) ShiftProofs.shift_states ->
+  exists ls,
+    fst (fst (scan jsc enum (a ++ b)%list)) = (rev acc ++ ls)%list /\
+    fst (fst (scan jsc enum (a ++ w ++ b)%list)) = (rev acc ++ map (ShiftProofs.shL (N.of_nat (List.length w))) ls)%list /\
+    snd (fst (scan jsc enum (a ++ w ++ b)%list)) =
+    ShiftProofs.she (N.of_nat (List.length w)) (snd (fst (scan jsc enum (a ++ b)%list))).
+Proof. exact ShiftProofs.blanks_at_line_start_shift_lemma. Qed.
+Print Assumptions blanks_at_line_start_only_shift.
+
+(* a comment line inserted at the start of a line *)
+Theorem comment_line_at_line_start_only_shifts : forall jsc enum (a text b : bytes) g acc,
+  TM_Events.len_sane jsc -> TM_Events.len_sane enum -> Forall TM_Loop.isb (a ++ b)%list -> Forall TM_Loop.isb text ->
+  forallb plain_comment_byte text = true -> text <> [] ->
+  ShiftProofs.line_start a ->
+  let w := (35 :: text ++ [10])%list in
+  ShiftProofs.prefix_run jsc enum (a ++ b)%list (N.of_nat (List.length a)) = Some (g, acc) ->
+  Forall (ShiftProofs.local_call jsc enum w b) (ShiftProofs.prefix_calls jsc enum (a ++ b)%list (N.of_nat (List.length a))) ->
+  estk g = [] -> In (reg g) ShiftProofs.shift_states -> In (reg g) comment_entry_states ->
+  exists ls,
+    fst (fst (scan jsc enum (a ++ b)%list)) = (rev acc ++ ls)%list /\
+    fst (fst (scan jsc enum (a ++ w ++ b)%list)) = (rev acc ++ map (ShiftProofs.shL (N.of_nat (List.length w))) ls)%list /\
+    snd (fst (scan jsc enum (a ++ w ++ b)%list)) =
+    ShiftProofs.she (N.of_nat (List.length w)) (snd (fst (scan jsc enum (a ++ b)%list))).
+Proof. exact ShiftProofs.comment_line_at_line_start_shift_lemma. Qed.
+Print Assumptions comment_line_at_line_start_only_shifts.
+
+(* REMOVAL: the same equalities read from the longer input to the shorter one.  unL k subtracts k from lb and le, une k
+   from an error position.  The premises are those of the insertion theorems (stated on the shorter input, the result
+   of the removal). *)
+Theorem blanks_removed_only_shift_back : forall jsc enum (a w b : bytes) g acc,
+  TM_Events.len_sane jsc -> TM_Events.len_sane enum -> Forall TM_Loop.isb (a ++ b)%list ->
+  Forall (fun c => In c blank_bytes) w ->
+  ShiftProofs.reach jsc enum (a ++ b)%list (N.of_nat (List.length (a ++ b)%list)) g acc ->
+  ShiftProofs.reach jsc enum (a ++ w ++ b)%list (N.of_nat (List.length (a ++ w ++ b)%list))
+                    (set_zip g (pos g) (pre g) (w ++ b)%list) acc ->
+  pos g = N.of_nat (List.length a) -> pre g = rev a -> rest g = b -> finds g = [] -> estk g = [] ->
+  In (reg g) ShiftProofs.shift_states ->
+  Forall (fun l => le l < N.of_nat (List.length a)) (lastp g) ->
+  exists ls',
+    fst (fst (scan jsc enum (a ++ w ++ b)%list)) = (rev acc ++ ls')%list /\
+    fst (fst (scan jsc enum (a ++ b)%list)) = (rev acc ++ map (ShiftProofs.unL (N.of_nat (List.length w))) ls')%list /\
+    snd (fst (scan jsc enum (a ++ b)%list)) =
+    ShiftProofs.une (N.of_nat (List.length w)) (snd (fst (scan jsc enum (a ++ w ++ b)%list))).
+Proof. exact ShiftProofs.blanks_removal_lemma. Qed.
+Print Assumptions blanks_removed_only_shift_back.
+
+Theorem blanks_removed_at_line_start_only_shift_back : forall jsc enum (a w b : bytes) g acc,
+  TM_Events.len_sane jsc -> TM_Events.len_sane enum -> Forall TM_Loop.isb (a ++ b)%list ->
+  Forall (fun c => In c blank_bytes) w ->
+  ShiftProofs.line_start a ->
+  ShiftProofs.prefix_run jsc enum (a ++ b)%list (N.of_nat (List.length a)) = Some (g, acc) ->
+  Forall (ShiftProofs.local_call jsc enum w b) (ShiftProofs.prefix_calls jsc enum (a ++ b)%list (N.of_nat (List.length a))) ->
+  estk g = [] -> In (reg g) ShiftProofs.shift_states ->
+  exists ls',
+    fst (fst (scan jsc enum (a ++ w ++ b)%list)) = (rev acc ++ ls')%list /\
+    fst (fst (scan jsc enum (a ++ b)%list)) = (rev acc ++ map (ShiftProofs.unL (N.of_nat (List.length w))) ls')%list /\
+    snd (fst (scan jsc enum (a ++ b)%list)) =
+    ShiftProofs.une (N.of_nat (List.length w)) (snd (fst (scan jsc enum (a ++ w ++ b)%list))).
+Proof. exact ShiftProofs.blanks_removal_at_line_start_lemma. Qed.
+Print Assumptions blanks_removed_at_line_start_only_shift_back.
+
+Theorem comment_line_removed_at_line_start_only_shifts_back : forall jsc enum (a text b : bytes) g acc,
+  TM_Events.len_sane jsc -> TM_Events.len_sane enum -> Forall TM_Loop.isb (a ++ b)%list -> Forall TM_Loop.isb text ->
+  forallb plain_comment_byte text = true -> text <> [] ->
+  ShiftProofs.line_start a ->
+  let w := (35 :: text ++ [10])%list in
+  ShiftProofs.prefix_run jsc enum (a ++ b)%list (N.of_nat (List.length a)) = Some (g, acc) ->
+  Forall (ShiftProofs.local_call jsc enum w b) (ShiftProofs.prefix_calls jsc enum (a ++ b)%list (N.of_nat (List.length a))) ->
+  estk g = [] -> In (reg g) ShiftProofs.shift_states -> In (reg g) comment_entry_states ->
+  exists ls',
+    fst (fst (scan jsc enum (a ++ w ++ b)%list)) = (rev acc ++ ls')%list /\
+    fst (fst (scan jsc enum (a ++ b)%list)) = (rev acc ++ map (ShiftProofs.unL (N.of_nat (List.length w))) ls')%list /\
+    snd (fst (scan jsc enum (a ++ b)%list)) =
+    ShiftProofs.une (N.of_nat (List.length w)) (snd (fst (scan jsc enum (a ++ w ++ b)%list))).
+Proof. exact ShiftProofs.comment_line_removal_at_line_start_lemma. Qed.
+Print Assumptions comment_line_removed_at_line_start_only_shifts_back.
+
+(* "JSIGHT 0.3 / URL /a / GET" and the same with the line "# note" inserted before GET: the premises of
+   comment_line_at_line_start_only_shifts hold by computation (CommentExample.premises: the prefix run makes no call of
+   the schema library; theorem_applies); GET moves from 18..20 to 25..27 *)
+Theorem comment_line_between_directives_shifts :
+  ShiftProofs.ShiftExample.spans (scan ShiftProofs.ShiftExample.o0 ShiftProofs.ShiftExample.o0
+                                       (ShiftProofs.ShiftExample.a ++ ShiftProofs.ShiftExample.b)%list) =
+    [(0, 5); (7, 9); (11, 13); (15, 16); (18, 20)] /\
+  ShiftProofs.ShiftExample.spans (scan ShiftProofs.ShiftExample.o0 ShiftProofs.ShiftExample.o0
+                                       (ShiftProofs.ShiftExample.a ++ ShiftProofs.CommentExample.cw ++ ShiftProofs.ShiftExample.b)%list) =
+    [(0, 5); (7, 9); (11, 13); (15, 16); (25, 27)] /\
+  ShiftProofs.verdict (scan ShiftProofs.ShiftExample.o0 ShiftProofs.ShiftExample.o0
+                            (ShiftProofs.ShiftExample.a ++ ShiftProofs.CommentExample.cw ++ ShiftProofs.ShiftExample.b)%list) = SEof.
+Proof. exact ShiftProofs.CommentExample.comment_line_between_directives. Qed.
+Print Assumptions comment_line_between_directives_shifts.
